@@ -90,9 +90,6 @@ func (c15) Run(e *Env) {
 	window := []time.Duration{-1, 2 * time.Second, 30 * time.Second}[e.Draw(3)]
 	manual := e.Chance(1, 3)
 	nDyn := e.Draw(3)
-	if manual {
-		nDyn = 0 // see DESIGN: with a coordinator every body notifies, and only one waiter exists per flush
-	}
 	compType := []string{"none", "zlib", "lz4"}[e.Draw(3)]
 	// separate run class: some clients send strings the parser accepts but protobuf cannot carry
 	nonUTF8 := e.Chance(1, 5)
@@ -687,16 +684,24 @@ func (c15) Run(e *Env) {
 	// one more flush so that everything dispatched so far must come out, then (4) the tokens test:
 	// a flush producing max-requests bodies still goes out.
 	finalFlush := func(tag string) {
+		if manual {
+			// the coordinator's user (the Lambda manager) alternates Flush and WaitForFlush; while a
+			// wait is pending it cannot ask for another flush, so nothing dispatched later would leave
+			for i := 0; waitingA.Load(); i++ {
+				if i > 50 {
+					e.Failf("C15/flush-never-notified", "%s: WaitForFlush has not returned although every request of the flush was answered long ago (flushes so far %d, bodies %d): the caller can never flush again", tag, len(flushBegins), len(bodyOrder))
+				}
+				time.Sleep(200 * time.Millisecond)
+				e.Settle()
+			}
+		}
 		flushBegins = append(flushBegins, e.NextSeq())
 		if manual {
 			flushInProgressA.Store(true)
-			wg.Add(1)
+			waitingA.Store(true)
+			wg.Add(2)
 			go func() { defer wg.Done(); fc.Flush(); flushInProgressA.Store(false) }()
-			if !waitingA.Load() {
-				waitingA.Store(true)
-				wg.Add(1)
-				go func() { defer wg.Done(); fc.WaitForFlush(); waitingA.Store(false) }()
-			}
+			go func() { defer wg.Done(); fc.WaitForFlush(); waitingA.Store(false) }()
 		} else {
 			time.Sleep(nextTick())
 		}
